@@ -8,6 +8,7 @@ package main
 import (
 	"bufio"
 	"fmt"
+	"math"
 	"os"
 	"strings"
 
@@ -228,7 +229,7 @@ func gen(seed uint64, tier string) {
 	r := vproto.NewRng(seed)
 	npairs := 500
 	if tier == "thorough" {
-		npairs = 18000
+		npairs = 12000
 	}
 	emit := func(a, b geom.Polygonal) {
 		ta, tb := vproto.GeomToks(a), vproto.GeomToks(b)
@@ -240,13 +241,108 @@ func gen(seed uint64, tier string) {
 	for _, c := range corpus() {
 		emit(c[0], c[1])
 	}
+	// absolute thresholds: the same figures at small coordinate scales (3e-5 "degree" squares etc.)
+	for _, k := range []int{-15, -20, -30} {
+		u := math.Ldexp(1, k)
+		emit(sq(0, 0, 2*u, 2*u), sq(u, u, 3*u, 3*u))                           // small A overlapping small B
+		emit(sq(0, 0, 4, 4), sq(1, 1, 1+u, 1+u))                               // small B nested in large A
+		emit(bx(0, 0, 4, 4), geom.MultiPolygon{sq(1, 1, 1+u, 1+u), sq(2, 2, 3, 3)}) // a small member
+		emit(geom.Polygon{sq(0, 0, 4, 4)[0], sq(1, 1, 1+u, 1+u)[0]}, bx(0.5, 0.5, 3, 3)) // a small hole
+		emit(shapes.ScaleGeom(sq(0, 0, 2, 2), u).(geom.Polygon), shapes.ScaleGeom(sq(-1, -1, 1, 1), u).(geom.Polygon))
+	}
+	// size thresholds: vertex / ring / member counts beyond 64, 128, 1024
+	for i, c := range bigCases(tier == "thorough") {
+		if tier == "thorough" {
+			emit(c[0], c[1])
+			continue
+		}
+		fmt.Fprintf(out, "op %s %s | %s\n", opNames[(i+int(seed))%4], vproto.GeomToks(c[0]), vproto.GeomToks(c[1]))
+	}
 	kinds := []string{"PG", "MPG", "B"}
 	for i := 0; i < npairs; i++ {
 		ka, kb := kinds[i%3], kinds[(i/3)%3]
 		class := classCycle[(i/9)%len(classCycle)]
 		a, b := genPair(r, ka, kb, class)
 		closed := r.Intn(5) != 0
-		emit(a.ToGeom(1, closed), b.ToGeom(1, closed))
+		f := scaleFor(r)
+		emit(shapes.ScaleGeom(a.ToGeom(1, closed), f).(geom.Polygonal), shapes.ScaleGeom(b.ToGeom(1, closed), f).(geom.Polygonal))
+	}
+	// histories: the SAME two operand objects, their coordinates overwritten in place between calls
+	for h := 0; h < npairs/25; h++ {
+		ka, kb := kinds[h%3], kinds[(h/3)%3]
+		a := shapes.GenShape(r, ka, true)
+		b := shapes.GenShape(r, kb, h%2 == 0)
+		closed := r.Intn(5) != 0
+		steps := r.Range(2, 3)
+		var sb strings.Builder
+		for k := 0; k < steps; k++ {
+			c, ok := place(r, a, b, r.Intn(5))
+			if !ok {
+				c, _ = place(r, a, b, 3)
+			}
+			m := int64(r.Range(1, 3))
+			dx, dy := int64(r.Range(-6, 6)), int64(r.Range(-6, 6))
+			ak, ck := a.Scale(m, dx, dy), c.Scale(m, dx, dy)
+			if k > 0 {
+				sb.WriteString(" ;;")
+			}
+			fmt.Fprintf(&sb, " %s | %s", vproto.GeomToks(ak.ToGeom(1, closed)), vproto.GeomToks(ck.ToGeom(1, closed)))
+		}
+		for _, o := range opNames {
+			fmt.Fprintf(out, "hop %s%s\n", o, sb.String())
+		}
+	}
+}
+
+func scaleFor(r *vproto.Rng) float64 {
+	switch r.Intn(10) {
+	case 0:
+		return math.Ldexp(1, -20)
+	case 1:
+		return math.Ldexp(1, -24)
+	case 2:
+		return math.Ldexp(1, -30)
+	case 3:
+		return math.Ldexp(1, 20)
+	}
+	return 1
+}
+
+// bigCases: a comb of 1042 vertices, a polygon with 70 holes, a multi-polygon of 130 members
+// (thorough tier; the quick tier uses 262 vertices, 35 holes, 66 members), each against an operand
+// that overlaps part of it.
+func bigCases(full bool) [][2]geom.Polygonal {
+	comb := geom.Path{{X: 0, Y: 0}}
+	cols, nholes, nmem := 130, 35, 66
+	if full {
+		cols, nholes, nmem = 520, 70, 130
+	}
+	var top []geom.Point
+	for c := 0; c < cols; c++ {
+		h := 6.0
+		if c%2 == 1 {
+			h = 2
+		}
+		top = append(top, geom.Point{X: float64(c), Y: h}, geom.Point{X: float64(c + 1), Y: h})
+	}
+	comb = append(comb, geom.Point{X: float64(cols), Y: 0})
+	for i := len(top) - 1; i >= 0; i-- {
+		comb = append(comb, top[i])
+	}
+	comb = append(comb, comb[0])
+	holes := geom.Polygon{sq(0, 0, 211, 5)[0]}
+	for i := 0; i < nholes; i++ {
+		holes = append(holes, sq(1+3*float64(i), 1, 3+3*float64(i), 3)[0])
+	}
+	var many geom.MultiPolygon
+	for i := 0; i < nmem; i++ {
+		many = append(many, sq(3*float64(i), 0, 3*float64(i)+2, 2))
+	}
+	return [][2]geom.Polygonal{
+		{geom.Polygon{comb}, bx(20.5, 3.5, 100.25, 7.5)},
+		{holes, geom.Polygon{{{X: 10.5, Y: -1.5}, {X: 90.5, Y: 1.75}, {X: 90.5, Y: 7.5}, {X: 10.5, Y: 2.25}}}},
+		{many, bx(10.5, 0.5, 150.5, 1.5)},
+		{bx(10.5, 0.5, 150.5, 1.5), many},
 	}
 }
 
@@ -273,6 +369,8 @@ func area(p geom.Polygonal) float64 {
 	return p.Area()
 }
 
+func toks2(a, b geom.Polygonal) string { return vproto.GeomToks(a) + "|" + vproto.GeomToks(b) }
+
 func impl() {
 	vproto.Lines(func(line string, out *bufio.Writer) {
 		defer out.Flush()
@@ -281,16 +379,68 @@ func impl() {
 			p := vproto.NewParser(line)
 			kind := p.Next()
 			op := ""
-			if kind == "op" {
+			if kind == "op" || kind == "opx" || kind == "hop" {
 				op = p.Next()
+			}
+			if kind == "hop" {
+				// both operand objects of the first call are kept and overwritten in place for the
+				// following calls; all results are serialised only after the last call
+				var ha, hb geom.Polygonal
+				var results []geom.Polygonal
+				var same []bool
+				for {
+					a, _ := p.Geom().(geom.Polygonal)
+					if p.Next() != "|" {
+						panic("harness: expected |")
+					}
+					b, _ := p.Geom().(geom.Polygonal)
+					if ha == nil {
+						ha, hb = shapes.Flat(a), shapes.Flat(b)
+					} else {
+						ha, hb = shapes.CopyInto(ha, a), shapes.CopyInto(hb, b)
+					}
+					before := toks2(ha, hb)
+					res := apply(ha, op, hb)
+					ok := before == toks2(ha, hb)
+					// a result that IS an operand (the *Bounds shortcuts return their argument) would
+					// change with the next in-place overwrite: freeze it now
+					results = append(results, freeze(res))
+					same = append(same, ok)
+					if p.Done() {
+						break
+					}
+					if p.Next() != ";;" {
+						panic("harness: expected ;;")
+					}
+				}
+				var sb strings.Builder
+				for i, r := range results {
+					if i > 0 {
+						sb.WriteString(" ;; ")
+					}
+					if !same[i] {
+						sb.WriteString("mutated")
+					} else {
+						sb.WriteString("ok " + vproto.GeomToks(r))
+					}
+				}
+				res = sb.String()
+				return
 			}
 			a, _ := p.Geom().(geom.Polygonal)
 			if p.Next() != "|" {
 				panic("harness: expected |")
 			}
 			b, _ := p.Geom().(geom.Polygonal)
-			if kind == "op" {
-				res = "ok " + vproto.GeomToks(apply(a, op, b))
+			a, b = shapes.Flat(a), shapes.Flat(b)
+			before := toks2(a, b)
+			if kind == "op" || kind == "opx" {
+				r := apply(a, op, b)
+				if before != toks2(a, b) {
+					res = "mutated"
+					return
+				}
+				res = "ok " + vproto.GeomToks(r)
 				return
 			}
 			var sb strings.Builder
@@ -305,6 +455,18 @@ func impl() {
 		}
 		fmt.Fprintf(out, "%s => %s\n", line, res)
 	})
+}
+
+// freeze returns a deep copy of a result (so that a result which is one of the operand objects
+// keeps the value it had when it was returned).
+func freeze(g geom.Polygonal) geom.Polygonal {
+	if g == nil {
+		return nil
+	}
+	if b, ok := g.(*geom.Bounds); ok && b == nil {
+		return g
+	}
+	return shapes.ScaleGeom(g, 1).(geom.Polygonal)
 }
 
 func main() {
